@@ -378,6 +378,30 @@ struct AllCumulativeCapitalGains {"""),
 ]
 
 
+# fourth benign patch: the modules behind the late claims (summary, costs, E*TRADE matcher, ledger locals)
+BENIGN['benign_late'] = [
+    ('src/portfolio/summary.rs', 'make_simple_summary_txs', 'simple_summary_rows', 'all'),
+    ('src/portfolio/summary.rs', 'get_summary_range_delta_indicies', 'summary_ranges_for', 'all'),
+    ('src/portfolio/summary.rs', 'make_annual_gains_summary_txs', 'annual_summary_rows', 'all'),
+    ('src/portfolio/summary.rs', '                latest_in_summary_date >= first_superficial_loss_period_day;', '                first_superficial_loss_period_day <= latest_in_summary_date;'),
+    ('src/portfolio/summary.rs', '            if delta.tx.settlement_date < first_superficial_loss_period_day {', '            if first_superficial_loss_period_day > delta.tx.settlement_date {'),
+    ('src/portfolio/bookkeeping/costs.rs', 'observe_new_cost', 'observe', 'all'),
+    ('src/portfolio/bookkeeping/costs.rs', 'calc_max_day_cost_per_sec', 'per_day_costs', 'all'),
+    ('src/portfolio/bookkeeping/costs.rs', 'ignored_delta_descs', 'ignored_notes', 'all'),
+    ('src/portfolio/bookkeeping/costs.rs', '                if *old_date_cost.total < *day_cost.total {', '                if *day_cost.total > *old_date_cost.total {'),
+    ('src/peripheral/etrade_plan_pdf_tx_extract_impl.rs', 'amend_benefit_sales', 'match_benefit_sales', 'all'),
+    ('src/peripheral/etrade_plan_pdf_tx_extract_impl.rs', 'find_sell_to_cover_trade_set', 'find_trade_set', 'all'),
+    ('src/peripheral/etrade_plan_pdf_tx_extract_impl.rs', 'leftover_trade_confs', 'pool', 'all'),
+    ('src/peripheral/etrade_plan_pdf_tx_extract_impl.rs', '                && benefit.acquire_tx_date <= trade.trade_date\n                && trade.trade_date <= latest_day', '                && trade.trade_date >= benefit.acquire_tx_date\n                && latest_day >= trade.trade_date'),
+    ('src/portfolio/bookkeeping/delta_list.rs', 'new_acb_total', 'acb_after', 'all'),
+    ('src/portfolio/bookkeeping/delta_list.rs', 'capital_gains', 'realised', 'all'),
+    ('src/portfolio/bookkeeping/delta_list.rs', 'txs_to_inject', 'generated', 'all'),
+    ('src/portfolio/bookkeeping/delta_list.rs', '            if !ratio_of_sfl.numerator.is_zero() && !af.registered() {', '            if !af.registered() && !ratio_of_sfl.numerator.is_zero() {'),
+    ('src/portfolio/bookkeeping/delta_list.rs', 'some_modified_txs.insert(i + new_tx_i + 1, new_tx);', 'some_modified_txs.insert(1 + i + new_tx_i, new_tx);'),
+    ('src/portfolio/splits.rs', '                let mut new_split = global_split.clone();\n                new_split.affiliate = affiliate.clone();\n                sorted_security_txs.insert(idx, new_split);', '                let mut per_affiliate = global_split.clone();\n                per_affiliate.affiliate = affiliate.clone();\n                sorted_security_txs.insert(idx, per_affiliate);'),
+]
+
+
 def make_patch(edits):
     tmp = tempfile.mkdtemp(prefix='acbverif-mk-')
     try:
